@@ -18,6 +18,7 @@ import (
 	"golang.org/x/tools/go/ssa"
 
 	"rjverif/internal/core"
+	"rjverif/internal/lts"
 )
 
 // escDiag is one compiler escape-analysis diagnostic.
@@ -493,6 +494,23 @@ func C19(x *Ctx, r *core.Result) {
 		r.CheckFloor(c, 10)
 	}
 	r.CheckFloor(a, 30)
+	e19 := r.Rule("R19e", "Decode* on null: the call succeeds (null fallback), so the failure of the typed reader on the way is part of a successful call — on the input `ws* null` every failing exit of that reader returns a package-level sentinel, never a constructed error")
+	x.decodeNullPath(r, e19, func(fn *ssa.Function) bool {
+		// an error constructor none of whose allocation sites survives (e.g. it boxes a one-byte value)
+		if fn == nil || !allDischarged[fn] {
+			return false
+		}
+		for _, s := range sites {
+			if s.fn == fn && !s.ok {
+				if _, isAlloc := s.ins.(*ssa.Alloc); isAlloc {
+					continue
+				}
+				return false
+			}
+		}
+		return true
+	})
+	r.CheckFloor(e19, 6)
 	d := r.Rule("R19d", "the grown stack is stored back into the Buffer by every wrapper (otherwise a warmed buffer would not stay warm)")
 	x.wrapperSymmetryOpt(r, d, true, bufferWrappers...)
 	r.CheckFloor(d, 5)
@@ -533,4 +551,134 @@ func (x *Ctx) carriesFrom(o, v ssa.Value, cb *ssa.BasicBlock, seen map[ssa.Value
 		}
 	}
 	return n > 0
+}
+
+
+// decodeNullPath: R19e. The reader's flat model (E2 + E1) is walked on the bytes ws* n u l l; every failing exit met
+// must carry an error that is a plain package-level variable.
+func (x *Ctx) decodeNullPath(r *core.Result, rs *core.RuleStat, noAlloc func(*ssa.Function) bool) {
+	w := x.W
+	for _, n := range c19Entries {
+		if !strings.HasPrefix(n, "Decode") {
+			continue
+		}
+		fn := x.Func(n)
+		if fn == nil {
+			continue
+		}
+		// the typed reader: the library callee with results (T, int, error) given the function's data
+		var reader *ssa.Function
+		for _, b := range fn.Blocks {
+			for _, ins := range b.Instrs {
+				if c, ok := ins.(*ssa.Call); ok {
+					callee := c.Call.StaticCallee()
+					if callee != nil && w.InLib(callee) && callee.Signature.Results().Len() == 3 && isErrT(callee.Signature.Results().At(2).Type()) && reader == nil {
+						reader = callee
+					}
+				}
+			}
+		}
+		if reader == nil {
+			r.Undecided(rs, n, w.Pos(fn.Pos()), "no typed reader call found")
+			continue
+		}
+		rs.Instances++
+		flat, res, probs := x.Flat(reader.Name(), specOffErr(1, 2))
+		if flat == nil || res == nil || len(probs) > 0 || len(res.Problems) > 0 {
+			r.Undecided(rs, n+":model", w.Pos(reader.Pos()), "no problem-free model of "+reader.Name()+" to walk")
+			continue
+		}
+		type key struct {
+			st, k int
+		}
+		lit := "null"
+		seen := map[key]bool{{flat.Start, 0}: true}
+		work := []key{{flat.Start, 0}}
+		bad := false
+		exits := 0
+		for len(work) > 0 {
+			cur := work[len(work)-1]
+			work = work[:len(work)-1]
+			st := flat.States[cur.st]
+			if st == nil || cur.k >= len(lit) {
+				continue
+			}
+			step := func(by byte, nk int) {
+				for _, e := range st.Edges {
+					if !e.Bytes.Has(by) {
+						continue
+					}
+					switch e.Term.Kind {
+					case lts.Move:
+						nx := key{e.Term.To, nk}
+						if !seen[nx] {
+							seen[nx] = true
+							work = append(work, nx)
+						}
+					case lts.Exit:
+						if e.Term.OK {
+							continue // the reader accepts (ReadNull-like): not a failure on the way
+						}
+						exits++
+						name := strings.TrimPrefix(e.Term.Err, "err variable = ")
+						plain := x.noAllocError(name, noAlloc)
+						if mn := strings.TrimSuffix(name, " error"); mn != name && x.Machine(mn) != nil {
+							// the error of a machine the reader ran: every failing exit of that machine must be a sentinel
+							plain = true
+							ml := x.Machine(mn).LTS
+							for _, id := range ml.IDs() {
+								ms := ml.States[id]
+								for _, me := range ms.Edges {
+									if me.Term.Kind == lts.Exit && !me.Term.OK && !x.noAllocError(strings.TrimPrefix(me.Term.Err, "err variable = "), noAlloc) {
+										plain = false
+										name = mn + ": " + me.Term.Err
+									}
+								}
+								for _, o := range ms.EOF {
+									if !o.OK && o.Term == nil && !x.noAllocError(strings.TrimPrefix(o.Err, "err variable = "), noAlloc) {
+										plain = false
+										name = mn + " at end of input: " + o.Err
+									}
+								}
+							}
+						}
+						if !plain && !bad {
+							bad = true
+							r.Fail(rs, n+":null-path-error", e.Pos, fmt.Sprintf("%s(`null`) succeeds, but on the way %s fails with a constructed error (%s): an allocation on a successful call", n, reader.Name(), name))
+						}
+					}
+				}
+			}
+			if cur.k == 0 {
+				for _, ws := range []byte{' ', '\t', '\n', '\r'} {
+					step(ws, 0)
+				}
+			}
+			step(lit[cur.k], cur.k+1)
+		}
+		if exits == 0 {
+			r.Undecided(rs, n+":null-path", w.Pos(reader.Pos()), reader.Name()+" does not fail on `null` within its four bytes: the fallback path cannot be identified")
+			continue
+		}
+		if !bad {
+			rs.OK(1)
+			rs.Sample(fmt.Sprintf("%s: %s fails on ws* null at %d exits, each with a sentinel", n, reader.Name(), exits))
+		}
+	}
+}
+
+
+func isPlainSentinel(name string) bool {
+	return name != "" && name != "err variable" && !strings.ContainsAny(name, "( .") && !strings.HasPrefix(name, "undecided")
+}
+
+// noAllocError: a sentinel, or a call of a library error constructor that does not allocate.
+func (x *Ctx) noAllocError(name string, noAlloc func(*ssa.Function) bool) bool {
+	if isPlainSentinel(name) {
+		return true
+	}
+	if fnName := strings.TrimSuffix(name, "(…)"); fnName != name {
+		return noAlloc(x.W.SRoot.Func(fnName))
+	}
+	return false
 }
